@@ -6,10 +6,10 @@
    separated by `reset` events; the verdict of each answer is printed (a violated invariant
    would stop TLC at the first one).
 
-     rstart r        a lookup is about to be started   -> rstart[r] = newest acknowledged version
+     rstart r k      a lookup for key k is about to be started -> rstart[r] = newest acknowledged version of k
      rdone  r ans    the lookup returned version ans   -> rans[r] = ans, judged
      pstart p v      a publish of version v is about to be started
-     pdone  p v res  the publish returned res          -> res = TRUE acknowledges v
+     pdone  p k v res  the publish for key k returned res -> res = TRUE acknowledges v
    Logging a start early and a completion late only weakens what is demanded, so the order in
    which the (single-threaded) driver logs is sound. *)
 EXTENDS DnsCache, IOUtils, TLCExt
@@ -17,16 +17,18 @@ Rec == ndJsonDeserialize(IOEnv.TRACE)
 VARIABLES l, cs
 tvars == <<vars, l, cs>>
 T_VerOf == [p \in Publishers |-> 0]
+T_RKey == [r \in Resolvers |-> "a"]
+T_PKey == [p \in Publishers |-> "a"]
 T_TsOf == <<1>>
 TInit == Init /\ l = 1 /\ cs = 0
 IsEvent(e) == l <= Len(Rec) /\ Rec[l].ev = e /\ l' = l + 1
-Others == <<store, cache, gen, lock, rgot, rseen, ppc, pres, word>>
+Others == <<store, cache, gen, lastInval, lock, rgot, rseen, ppc, pres, word>>
 
 TReset == /\ IsEvent("reset") /\ cs' = Rec[l].case
           /\ rpc' = [r \in Resolvers |-> "idle"] /\ rstart' = [r \in Resolvers |-> 0]
-          /\ rans' = [r \in Resolvers |-> 0] /\ acked' = 1 /\ UNCHANGED Others
-TRStart == /\ IsEvent("rstart") /\ Rec[l].r \in Resolvers
-           /\ rstart' = [rstart EXCEPT ![Rec[l].r] = acked] /\ rpc' = [rpc EXCEPT ![Rec[l].r] = "miss"]
+          /\ rans' = [r \in Resolvers |-> 0] /\ acked' = [k \in Keys |-> 1] /\ UNCHANGED Others
+TRStart == /\ IsEvent("rstart") /\ Rec[l].r \in Resolvers /\ Rec[l].k \in Keys
+           /\ rstart' = [rstart EXCEPT ![Rec[l].r] = acked[Rec[l].k]] /\ rpc' = [rpc EXCEPT ![Rec[l].r] = "miss"]
            /\ UNCHANGED <<rans, acked, cs>> /\ UNCHANGED Others
 TRDone == /\ IsEvent("rdone") /\ Rec[l].r \in Resolvers
           /\ rans' = [rans EXCEPT ![Rec[l].r] = Rec[l].ans] /\ rpc' = [rpc EXCEPT ![Rec[l].r] = "done"]
@@ -34,10 +36,10 @@ TRDone == /\ IsEvent("rdone") /\ Rec[l].r \in Resolvers
           /\ PrintT(<<"REPLAY", ToJson([case |-> cs, r |-> Rec[l].r, ans |-> Rec[l].ans,
                                         demanded |-> rstart[Rec[l].r], stale |-> Older(Rec[l].ans, rstart[Rec[l].r])])>>)
 TPStart == /\ IsEvent("pstart") /\ UNCHANGED <<rpc, rstart, rans, acked, cs>> /\ UNCHANGED Others
-TPDone == /\ IsEvent("pdone")
-          /\ acked' = IF Rec[l].res THEN Max(acked, Rec[l].v) ELSE acked
+TPDone == /\ IsEvent("pdone") /\ Rec[l].k \in Keys
+          /\ acked' = IF Rec[l].res THEN [acked EXCEPT ![Rec[l].k] = Max(@, Rec[l].v)] ELSE acked
           /\ UNCHANGED <<rpc, rstart, rans, cs>> /\ UNCHANGED Others
-AckedAtLeastInitial == acked >= 1
+AckedAtLeastInitial == \A k \in Keys : acked[k] >= 1
 TNext == TReset \/ TRStart \/ TRDone \/ TPStart \/ TPDone
 TSpec == TInit /\ [][TNext]_tvars
 Accepted == LET d == TLCGet("stats").diameter - 1 IN
